@@ -64,6 +64,23 @@ struct sba_page_model {
 };
 struct sba_page_model *g_pt[SBA_MAXP];
 bool g_pt_alive[SBA_MAXP];
+#define SBA_H(i) (&g_pt[(i)]->hdr)
+static inline struct sba_page_model *sba_model_new_page(void) {
+    struct sba_page_model *p = malloc(sizeof(struct sba_page_model)); /* arbitrary contents */
+    __CPROVER_assume(p != NULL);
+    return p;
+}
+
+/* ASSUMED contract of s_page_base (integer<->pointer address mask, outside CBMC's memory model) in page-table form:
+ * NULL -> NULL; a pointer into page object i of the model -> the base of that object.  On a flat address space with
+ * page-aligned pages (posix_memalign(.., PAGE, PAGE)) this is what (addr & ~(PAGE-1)) computes. */
+#define SBA_PB_CASE(i) (addr != NULL && g_pt[i] != NULL && __CPROVER_same_object(addr, g_pt[i]) ==> PEQ(RET, (void *)g_pt[i]))
+static void *s_page_base(const void *addr)
+__CPROVER_requires(1)
+__CPROVER_assigns()
+__CPROVER_ensures(addr == NULL ==> RET == NULL)
+__CPROVER_ensures(SBA_PB_CASE(0) && SBA_PB_CASE(1) && SBA_PB_CASE(2) && SBA_PB_CASE(3))
+;
 
 #define SBA_AL_AT(list, i) (((void **)(list)->data)[(i)])
 #define SBA_NCH(sz) ((SBA_PAGE - SBA_HDR) / (sz)) /* chunks per page */
@@ -88,8 +105,8 @@ static inline bool sba_list_ok(const struct aws_array_list *l, struct aws_alloca
 }
 /* page i is a live page object of this bin: not released, both tags set, back pointer to the bin */
 static inline bool sba_page_ok(const struct sba_bin *bin, size_t i) {
-    return i < SBA_MAXP && g_pt[i] != NULL && g_pt_alive[i] && g_pt[i]->hdr.tag == AWS_SBA_TAG_VALUE && g_pt[i]->hdr.tag2 == AWS_SBA_TAG_VALUE &&
-           g_pt[i]->hdr.bin == bin;
+    return i < SBA_MAXP && g_pt[i] != NULL && g_pt_alive[i] && SBA_H(i)->tag == AWS_SBA_TAG_VALUE && SBA_H(i)->tag2 == AWS_SBA_TAG_VALUE &&
+           SBA_H(i)->bin == bin;
 }
 /* position of page i in active_pages (SBA_NONE: not there) */
 static inline size_t sba_active_pos(const struct sba_bin *bin, size_t i) {
@@ -139,7 +156,7 @@ static inline bool sba_bin_inv(const struct small_block_allocator *sba, const st
         size_t off = __CPROVER_POINTER_OFFSET(bin->page_cursor);
         if (!sba_page_ok(bin, wi)) return false;
         ok = ok && off >= SBA_HDR && (off - SBA_HDR) % class_size == 0 && (off - SBA_HDR) / class_size < SBA_NCH(class_size);
-        ok = ok && (size_t)g_pt[wi]->hdr.alloc_count + sba_free_in_page(bin, wi) == (off - SBA_HDR) / class_size;
+        ok = ok && (size_t)SBA_H(wi)->alloc_count + sba_free_in_page(bin, wi) == (off - SBA_HDR) / class_size;
     }
     /* exhausted pages: page bases, pairwise distinct, not the working page, at least one live chunk, count == chunks per page - free */
     for (size_t j = 0; j < SBA_MAXP; j++) {
@@ -147,8 +164,8 @@ static inline bool sba_bin_inv(const struct small_block_allocator *sba, const st
             const void *p = SBA_AL_AT(&bin->active_pages, j);
             size_t pi = sba_pidx(p);
             if (!sba_page_ok(bin, pi) || p != (void *)g_pt[pi]) return false;
-            ok = ok && pi != wi && g_pt[pi]->hdr.alloc_count >= 1;
-            ok = ok && (size_t)g_pt[pi]->hdr.alloc_count + sba_free_in_page(bin, pi) == SBA_NCH(class_size);
+            ok = ok && pi != wi && SBA_H(pi)->alloc_count >= 1;
+            ok = ok && (size_t)SBA_H(pi)->alloc_count + sba_free_in_page(bin, pi) == SBA_NCH(class_size);
             for (size_t k = 0; k < SBA_MAXP; k++)
                 if (k < j) ok = ok && SBA_AL_AT(&bin->active_pages, k) != p;
         }
@@ -168,7 +185,7 @@ static inline bool sba_bin_inv(const struct small_block_allocator *sba, const st
 static inline size_t sba_bin_live_count(const struct sba_bin *bin) {
     size_t n = 0;
     for (size_t i = 0; i < SBA_MAXP; i++)
-        if (sba_listed(bin, i)) n += g_pt[i]->hdr.alloc_count;
+        if (sba_listed(bin, i)) n += SBA_H(i)->alloc_count;
     return n;
 }
 static inline size_t sba_bin_pages(const struct sba_bin *bin) {
